@@ -3,11 +3,12 @@
    the entry points that have no model.  The property: every call returns a value or an error
    - no panic, no hang, no leaked goroutine - and no write makes a list longer than
    max(previous length, MaxIdx + 1, length of a list that was inserted). *)
-From Ucfg Require Export CorrC12 CorrC17.
+From Ucfg Require Export CorrC12 CorrC17 CorrC02.
 
 Inductive case :=
 | CHist7 (c : CorrC12.case)
 | CParse7 (c : CorrC17.case)
+| CDyn7 (c : CorrC02.case)
 | CTotal (entry : string) (input : string) (outcome : N).
     (* 0 returned nil, 1 returned an error, 2 panicked, 3 did not return, 4 leaked a goroutine *)
 
@@ -50,8 +51,61 @@ Definition probe_no_panic (p : probe) : bool :=
 Definition step_no_panic (s : step) : bool :=
   obs_no_panic (st_res s) && obs_no_panic (st_count s) && forallb probe_no_panic (st_probes s).
 
+(* values only known at read time: the longest list in what Unpack returns is bounded by
+   MaxIdx + 1, by the lists that stand in the trees, and by what a text can spell out (an
+   element per comma, plus one) *)
+Fixpoint otree_max_list (t : otree) : Z :=
+  match t with
+  | OList l => Z.max (lenZ l) ((fix go (l : list otree) : Z := match l with [] => 0 | x :: r => Z.max (otree_max_list x) (go r) end) l)
+  | OMap kvs => (fix go (l : list (string * otree)) : Z := match l with [] => 0 | (_, x) :: r => Z.max (otree_max_list x) (go r) end) kvs
+  | _ => 0
+  end.
+Fixpoint commas (s : string) : Z :=
+  match s with
+  | EmptyString => 1
+  | String a r => (if (byte_of a =? 44)%N then 1 else 0) + commas r
+  end.
+Fixpoint exp_commas (e : vexp) : Z :=
+  match e with
+  | EConst s => commas s
+  | ERef _ _ => 1
+  | ESplice ps => (fix go (l : list vexp) : Z := match l with [] => 0 | x :: r => exp_commas x + go r end) ps
+  | ESingle x _ => exp_commas x
+  | EDefault l x _ | EAlt l x _ | EErr l x _ => exp_commas l + exp_commas x
+  end.
+Fixpoint text_bound (v : value) : Z :=
+  match v with
+  | VStr s => commas s
+  | VSplice e => exp_commas e
+  | VSub d a =>
+    Z.max ((fix gd (l : list (string * (string * value))) : Z :=
+              match l with [] => 0 | (_, (_, x)) :: r => Z.max (text_bound x) (gd r) end) d)
+          (match a with
+           | None => 0
+           | Some l => (fix ga (l : list (string * value)) : Z :=
+                          match l with [] => 0 | (_, x) :: r => Z.max (text_bound x) (ga r) end) l
+           end)
+  | _ => 0
+  end.
+Definition res_bound (rs : list (list (string * (string * pcfg)))) : Z :=
+  fold_right (fun t acc => fold_right (fun e acc => Z.max (commas (fst (snd e))) acc) acc t) 0 rs.
+Definition dyn_bound (o : eopts) (root : value) : Z :=
+  let trees := root :: eo_envs o in
+  Z.max (p_maxIdx (eo_p o) + 1)
+        (Z.max (fold_right (fun t acc => Z.max (Z.max (max_list t) (text_bound t)) acc) 0 trees) (res_bound (eo_res o))).
+
+Definition dyn_prop (c : CorrC02.case) : bool :=
+  match c with
+  | CRead _ _ _ _ OPanic | CHas _ _ _ _ OPanic => false
+  | CUnpackDyn _ _ XPanic | CUnpackDyn _ _ XHang | CTyped _ _ _ XPanic | CTyped _ _ _ XHang => false
+  | CFlat _ _ None => false
+  | CUnpackDyn o root (XV t) => (otree_max_list t <=? dyn_bound o root)
+  | _ => true
+  end.
+
 Definition model_agrees (c : case) : bool :=
   match c with
+  | CDyn7 d => CorrC02.model_agrees d
   | CHist7 h => CorrC12.model_agrees h
   | CParse7 p => CorrC17.model_agrees p
   | CTotal _ _ _ => true
@@ -60,6 +114,7 @@ Definition model_agrees (c : case) : bool :=
 Definition skipped (c : case) : bool :=
   match c with
   | CParse7 p => CorrC17.skipped p
+  | CDyn7 d => CorrC02.skipped d
   | _ => false
   end.
 
@@ -69,6 +124,7 @@ Definition prop_holds (c : case) : bool :=
     forallb probe_no_panic p0 && forallb step_no_panic ss && growth_ok (p_maxIdx o) init ss
   | CParse7 (CParse _ _ RPanic) => false
   | CParse7 _ => true
+  | CDyn7 d => dyn_prop d
   | CTotal _ _ n => (n <=? 1)%N
   end.
 
